@@ -6,6 +6,9 @@
   in the C09 generator profile) with the trace monitor.
 -/
 import ControlModel.Proofs.EnvHooks
+import ControlModel.Proofs.CallWays
+import ControlModel.Spec.EnvTrace
+import ControlModel.Gen.C09CallFacts
 
 open EnvM
 
@@ -102,6 +105,98 @@ theorem C09_late_result_counts (env : Env) (hooks : List Hook) (m : Moment) (p :
     (hnc : isCancelled env i = false) :
     (handleHooks env hooks m p).2.2 > 0 :=
   handleHooks_counts_pending env hooks m p w i hi hp hf hc hnc
+
+/-! ### the way a call hook fails (Model/CallWays.lean) -/
+
+/-- The model's exit logic of `(*Call).Call()` is the code's (go/ast facts of harness/props/c09/facts.go
+    over core/workflow/callable/call.go): an error of the evaluation of the call expression leaves at
+    once with that error; a non-empty `__call_error` leaves with an error; the evaluation comes first;
+    nothing else returns but the final `return nil`; and the returned value travels unchanged through
+    `Start` (sent to the await channel), `Await` (returns what it receives) and `AwaitAll` (keeps every
+    non-nil one) to handleHooks. -/
+theorem C09_call_exits_are_code :
+    codeCall = ⟨Gen.C09Call.evalErrorExits, Gen.C09Call.callErrorExits⟩ ∧
+    Gen.C09Call.evalBeforeCallErrorTest = true ∧ Gen.C09Call.nilOnlyAtEnd = true ∧ Gen.C09Call.returns = 3 ∧
+    Gen.C09Call.startSendsCallResult = true ∧ Gen.C09Call.awaitReturnsReceived = true ∧
+    Gen.C09Call.awaitAllKeepsEveryError = true := by decide
+
+/-- Whatever way an execution of a call hook fails — the plugin reports `__call_error` (with or without
+    a reason, after waiting out its timeout, after its request was cancelled), the plugin function returns
+    a Go error, does both, panics, is not exported, the plugin is not loaded, the expression does not
+    compile — `Call()` returns an error; and it returns none for an execution that does not fail. -/
+theorem C09_every_way_is_a_failure (o : Outcome) : callReturnsErr codeCall o.eval = o.isFail :=
+  callReturnsErr_code o
+
+/-- Only the criticality of a hook and the moment decide what its failure does, NOT the way it failed:
+    two hook sets that differ at most in the ways their failing executions fail give the same run — the
+    same steps, results and environments, request by request — for every number of tasks, every
+    environment and every request list (overlapping pairs included), hence the same trace items for the
+    monitor. -/
+theorem C09_failure_kind_irrelevant (ks ks' : List KHook) (h : SameButWays ks ks') (nTasks : Nat) (env : Env) (reqs : List PReq) :
+    runPar (ks.map (KHook.toHook codeCall)) nTasks env reqs = runPar (ks'.map (KHook.toHook codeCall)) nTasks env reqs ∧
+    modelItemsPar (ks.map (KHook.toHook codeCall)) nTasks reqs = modelItemsPar (ks'.map (KHook.toHook codeCall)) nTasks reqs := by
+  rw [map_toHook_eq_of_sameButWays h]
+  exact ⟨rfl, rfl⟩
+
+/-- …in particular every failure may as well have been reported through `__call_error` (or any other one way). -/
+theorem C09_any_one_way_for_all (w : Way) (ks : List KHook) (nTasks : Nat) (env : Env) (reqs : List PReq) :
+    runPar ((ks.map (KHook.withWay w)).map (KHook.toHook codeCall)) nTasks env reqs =
+      runPar (ks.map (KHook.toHook codeCall)) nTasks env reqs :=
+  (C09_failure_kind_irrelevant _ _ (map_withWay_sameButWays w ks) nTasks env reqs).1
+
+/-- The model the harness compares the code with (scripts pushed through `Call()`'s exit logic) is the
+    model of the hooks with the ways forgotten, on which `Spec.C09` is judged. -/
+theorem C09_model_is_way_blind (ks : List KHook) : ks.map (KHook.toHook codeCall) = ks.map KHook.forget :=
+  List.map_congr_left (fun k _ => toHook_code_eq_forget k)
+
+/-- The grid: for EVERY way, a hook failing that way at each of the four moments of CONFIGURE, at a
+    negative and at a non-negative weight, has the effect its criticality and the moment give it —
+    critical at before_/leave_: cancelled, DEPLOYED kept; critical at enter_/after_: reported,
+    CONFIGURED reached; non-critical: nothing. -/
+theorem C09_effect_by_criticality_and_moment (w : Way) (crit neg : Bool) :
+    let wt : Int := if neg then -5 else 5
+    let hk (m : Moment) : List Hook := [KHook.toHook codeCall
+      { id := 0, isTask := false, critical := crit, trig := m, tw := wt, await := m, aw := wt, outcomes := [.fail w] }]
+    let run (m : Moment) := fsmEvent { st := .DEPLOYED } (hk m) .CONFIGURE true false
+    ((run (.before .CONFIGURE)).2.2, (run (.before .CONFIGURE)).1.st) =
+      (if crit then .cancelledHooks 1 (.before .CONFIGURE) else .ok, if crit then .DEPLOYED else .CONFIGURED) ∧
+    ((run (.leave .DEPLOYED)).2.2, (run (.leave .DEPLOYED)).1.st) =
+      (if crit then .cancelledHooks 1 (.leave .DEPLOYED) else .ok, if crit then .DEPLOYED else .CONFIGURED) ∧
+    ((run (.enter .CONFIGURED)).2.2, (run (.enter .CONFIGURED)).1.st) =
+      (if crit then .reported [(1, .enter .CONFIGURED)] else .ok, .CONFIGURED) ∧
+    ((run (.after .CONFIGURE)).2.2, (run (.after .CONFIGURE)).1.st) =
+      (if crit then .reported [(1, .after .CONFIGURE)] else .ok, .CONFIGURED) := by
+  cases w <;> cases crit <;> cases neg <;> decide
+
+/-- Both exits are needed. With the first exit merged into the second (`mergedExit`, NOT the code: the
+    evaluation error only stored in the message that the `__call_error` look-up then overwrites) `Call()`
+    returns an error exactly when the plugin left a `__call_error` — so a critical hook whose plugin is
+    not loaded no longer cancels CONFIGURE, while with the code's exits it does. -/
+theorem C09_evaluation_error_exit_needed :
+    (∀ o : Outcome, callReturnsErr mergedExit o.eval = o.eval.callError) ∧
+    (let k : KHook := { id := 0, isTask := false, critical := true, trig := .before .CONFIGURE, tw := 0,
+                        await := .before .CONFIGURE, aw := 0, outcomes := [.fail .noPlugin] }
+     (fsmEvent { st := .DEPLOYED } [k.toHook mergedExit] .CONFIGURE true false).2.2 = .ok ∧
+     (fsmEvent { st := .DEPLOYED } [k.toHook codeCall] .CONFIGURE true false).2.2 = .cancelledHooks 1 (.before .CONFIGURE)) := by
+  refine ⟨?_, by decide⟩
+  intro o
+  cases o with
+  | ok => rfl
+  | fail w => cases w <;> rfl
+
+/-- Non-vacuity: two hook sets that differ only in the ways (a plugin that is not loaded and a panic vs
+    two `__call_error`s; mixed criticality, a healthy execution in between). -/
+example :
+    SameButWays
+      [{ id := 0, isTask := false, critical := true, trig := .before .CONFIGURE, tw := 0, await := .before .CONFIGURE, aw := 0,
+         outcomes := [.fail .noPlugin, .ok, .fail .panic] },
+       { id := 1, isTask := false, critical := false, trig := .enter .CONFIGURED, tw := -1, await := .after .CONFIGURE, aw := 3,
+         outcomes := [.fail .timeout] }]
+      [{ id := 0, isTask := false, critical := true, trig := .before .CONFIGURE, tw := 0, await := .before .CONFIGURE, aw := 0,
+         outcomes := [.fail .callError, .ok, .fail .callError] },
+       { id := 1, isTask := false, critical := false, trig := .enter .CONFIGURED, tw := -1, await := .after .CONFIGURE, aw := 3,
+         outcomes := [.fail .goErr] }] :=
+  .cons ⟨rfl, rfl, rfl, rfl, rfl, rfl, rfl, rfl⟩ (.cons ⟨rfl, rfl, rfl, rfl, rfl, rfl, rfl, rfl⟩ .nil)
 
 /-- Non-vacuity: a critical call started at before_DEPLOY that fails and is awaited two transitions later,
     at leave_DEPLOYED, cancels CONFIGURE (and DEPLOY went through). -/
